@@ -31,6 +31,8 @@ from . import tables as T
 from . import wire as W
 from .pathcond import Analysis, OK, SOME
 from .engine import VERIF
+from . import sym as S
+from . import dispatch as DP
 
 LEVEL = "other"
 
@@ -222,6 +224,175 @@ def check_floor(ctx, F, cfg):
     return ok_all
 
 
+def wrapper_paths(F, fn, opaque=()):
+    """path summaries of a text-decoding wrapper: effects = the inner Deserialize call and every mutation of a fresh String"""
+    def fresh(t):
+        return t[0] == "call" and not t[2] and t[1].split("::")[-1] == "new"
+
+    def is_effect(callee, args, node, st):
+        if node.get("callee") == DESER:
+            return True
+        if callee in ("<assign>",):
+            return bool(args) and fresh(args[0])
+        return bool(args) and fresh(args[0]) and (callee or "").split("::")[-1] not in ("len", "capacity", "is_empty", "as_str", "as_bytes", "new")
+
+    def inline(path, node):
+        f = sym.body_for(path)
+        return f is not None and (f.get("pv") or "user") == "user" and path not in opaque
+
+    sym = S.Sym(F, fn, is_effect=is_effect, inline=inline)
+    return sym, sym.run(split_result=True)
+
+
+def inner_error_only(sym, paths, D):
+    """every Err result is the inner decoder's own error, unchanged"""
+    bad = []
+    for p in paths:
+        r = p.result
+        if r is not None and r[0] == "ctor" and r[1] == S.ERR:
+            if not (sym.lookup(p, D.term) == S.ERR and DP.strip_conv(r[2][0]) == sym.proj(D.term, S.ERR, 0)):
+                bad.append(S.show(r)[:80])
+    return bad
+
+
+def check_skip(ctx, F, cfg, fn):
+    """skip_if_too_long: Err only from decoding the text; Ok(Some(<fresh String<L> holding exactly the decoded text>)) when it
+    fits; Ok(None) when it does not; a length pre-check is accepted only as `len > L`"""
+    PUSH = "heapless::string::String::<N>::push_str"
+    try:
+        sym, paths = wrapper_paths(F, fn)
+    except S.TooManyPaths:
+        ctx.violation("C13|skip|paths", "too many paths", cfg=cfg)
+        return
+    ds = {e.term: e for p in paths for e in p.effects if e.tcallee == DESER}
+    if not ctx.oblige("C13|skip|only-inner-error", len(ds) == 1 and (next(iter(ds.values())).node.get("targs") or [""])[0] == "&str",
+                      "skip_if_too_long does not decode exactly one text string (%s)" % [(e.node.get("targs") or [""])[0] for e in ds.values()], cfg=cfg, where=fn["sp"]):
+        return
+    D = next(iter(ds.values()))
+    text = sym.proj(D.term, S.OK, 0)
+    bad = inner_error_only(sym, paths, D)
+    ctx.oblige("C13|skip|only-inner-error|exits", not bad, "skip_if_too_long has error exits other than decoding the text itself: %s" % bad[:2], cfg=cfg, where=fn["sp"])
+    kept = dropped = 0
+    others = []
+    lent = ("call", "core::str::<impl str>::len", (text,))
+    cap_terms = [("path", SKIP_W + "::L"), ("const", SKIP_W + "::L")]
+    for p in paths:
+        r = p.result
+        if p.done and p.done[0] == "panic":
+            ctx.oblige("C13|skip|no-panic|" + str(p.done[2])[-30:], False, "skip_if_too_long can panic (%s): an over-long icon aborts instead of being dropped" % (p.done,), cfg=cfg, where=fn["sp"])
+            continue
+        if r is None or r[0] != "ctor" or r[1] != S.OK:
+            continue
+        v = r[2][0]
+        muts = [e for e in p.effects if e.tcallee != DESER]
+        pushes = [e for e in muts if e.callee == PUSH and len(e.args) == 2 and e.args[1] == text]
+        # length pre-checks on this path: atoms comparing len(text) with L
+        pre = []
+        for a in p.atoms:
+            if a[0] == "true" and a[1][0] == "bin" and any(x[0] == "call" and x[1] == "core::str::<impl str>::len" and x[2] == (text,) for x in (a[1][2], a[1][3])):
+                pre.append(a)
+        if v[0] == "ctor" and v[1] == S.SOME:
+            good = len(muts) == 1 and len(pushes) == 1 and v[2] == (pushes[0].args[0],) and sym.lookup(p, pushes[0].term) == S.OK
+            if good:
+                kept += 1
+            else:
+                others.append(S.show(r)[:80])
+        elif v == ("ctor", S.NONE, ()):
+            by_push = len(muts) == 1 and len(pushes) == 1 and sym.lookup(p, pushes[0].term) == S.ERR
+            by_pre = False
+            if not muts and pre and p.atoms and p.atoms[-1] is pre[-1]:
+                a = pre[-1]
+                op, l, rr, pol = a[1][1], a[1][2], a[1][3], a[2]
+                # canonical comparisons are < and <= : `len > L` is (L < len) true, or (len <= L) false
+                is_len = lambda x: x[0] == "call" and x[1] == "core::str::<impl str>::len"
+                strictly_longer = (op == "<" and is_len(rr) and not is_len(l) and pol) or (op == "<=" and is_len(l) and not is_len(rr) and not pol)
+                if strictly_longer:
+                    by_pre = True
+                else:
+                    ctx.oblige("C13|skip|precheck-boundary", False, "the length pre-check drops the icon under `%s`: an icon of exactly L bytes (which fits) is reported absent" % S.show_atom(a), cfg=cfg, where=fn["sp"])
+                    continue
+            if by_push or by_pre:
+                dropped += 1
+            else:
+                others.append("None when %s" % [S.show_atom(a) for a in p.atoms][-2:])
+        else:
+            others.append(S.show(r)[:80])
+    # the conversion must be genuinely fallible: core's blanket `impl<T, U: Into<T>> TryFrom<U> for T` is infallible
+    # (Error = Infallible) and forwards to From::from, which for heapless 0.7 String *panics* when the text does not fit
+    CONV = "<heapless::string::String<L> as core::convert::TryFrom<&str>>"
+    bodies = [fn] + [F.fn(q) for q in sym.inlined if F.fn(q) is not None]
+    convs = [x for g in bodies for x in H.walk(g["body"]) if H.conversion_impl(x) == CONV or (x.get("callee") == "core::convert::From::from" and (x.get("targs") or [""])[0].startswith("heapless::string::String<"))]
+    blanket = [x for x in convs if x.get("resolved") == "<T as core::convert::TryFrom<U>>::try_from" or "core::convert::Infallible" in (x.get("ty") or "") or x.get("callee") == "core::convert::From::from"]
+    ctx.oblige("C13|skip|fallible-conversion", not blanket,
+               "the text is converted with heapless' panicking String::from(&str) (directly or through core's infallible blanket TryFrom): "
+               "an icon longer than the capacity panics instead of being dropped", cfg=cfg, where=H.line(blanket[0]) if blanket else fn["sp"])
+    ctx.oblige("C13|skip|keeps-when-fits", kept >= 1, "an icon that fits is not returned verbatim as Some(<String<L> holding the decoded text>)", cfg=cfg, where=fn["sp"])
+    ctx.oblige("C13|skip|drops-when-too-long", dropped >= 1, "an over-long icon is not reported absent with Ok(None)", cfg=cfg, where=fn["sp"])
+    ctx.oblige("C13|skip|no-other-result", not others, "skip_if_too_long has other results: %s" % others[:3], cfg=cfg, where=fn["sp"])
+    ctx.sample({"cfg": cfg, "skip_if_too_long": S.summarize(paths)}, limit=3)
+
+
+def check_trunc_wrapper(ctx, F, cfg, fn):
+    """Ok(None) for an absent text, Ok(Some(truncate::<L>(text))) for a present one, Err only from the inner decoder"""
+    try:
+        sym, paths = wrapper_paths(F, fn, opaque=(TRUNCATE,))
+    except S.TooManyPaths:
+        ctx.violation("C13|trunc-wrapper|paths", "too many paths", cfg=cfg)
+        return
+    ds = {e.term: e for p in paths for e in p.effects if e.tcallee == DESER}
+    good = len(ds) == 1 and (next(iter(ds.values())).node.get("targs") or [""])[0] == "core::option::Option<&str>"
+    why = "it does not decode exactly one Option<&str>"
+    if good:
+        D = next(iter(ds.values()))
+        opt = sym.proj(D.term, S.OK, 0)
+        bad = inner_error_only(sym, paths, D)
+        if bad:
+            good, why = False, "error exits other than the inner decoder's: %s" % bad[:2]
+        n_some = n_none = 0
+        for p in paths:
+            r = p.result
+            if p.done and p.done[0] == "panic":
+                good, why = False, "it can panic (%s)" % (p.done,)
+                continue
+            if r is None or r[0] != "ctor" or r[1] != S.OK:
+                continue
+            v = r[2][0]
+            k = sym.lookup(p, opt)
+            if v == ("ctor", S.NONE, ()) and k == S.NONE:
+                n_none += 1
+            elif v[0] == "ctor" and v[1] == S.SOME and k == S.SOME and v[2][0][0] == "call" and v[2][0][1] == TRUNCATE and v[2][0][2] == (sym.proj(opt, S.SOME, 0),):
+                n_some += 1
+            else:
+                good, why = False, "a result is %s when the text is %s" % (S.show(r)[:80], S.short(k) if k else "?")
+        if good and not (n_some >= 1 and n_none >= 1):
+            good, why = False, "missing the Some / None case"
+        muts = [e for p in paths for e in p.effects if e.tcallee != DESER]
+        if good and muts:
+            good, why = False, "it builds a string itself (%s)" % S.short_fn(muts[0].callee)
+    # truncate is instantiated with the wrapper's own capacity
+    calls = [x for g in [fn] + [F.fn(q) for q in sym.inlined if F.fn(q) is not None] for x in H.walk(g["body"]) if (x.get("k") == "path" and x["res"].get("path") == TRUNCATE) or x.get("callee") == TRUNCATE]
+    tys = {(x.get("ty") or "") for x in calls}
+    if good and not (calls and all("heapless::string::String<L>" in t for t in tys)):
+        good, why = False, "truncate is not instantiated with the wrapper's capacity L (%s)" % sorted(tys)[:1]
+    ctx.oblige("C13|trunc-wrapper", good, "the truncating decoder is no longer Ok(<decoded Option<&str>>.map(truncate::<L>)): %s" % why, cfg=cfg, where=fn["sp"])
+
+
+def check_icon(ctx, F, cfg, fn):
+    try:
+        sym, paths = wrapper_paths(F, fn)
+    except S.TooManyPaths:
+        return False
+    ds = {e.term: e for p in paths for e in p.effects if e.tcallee == DESER}
+    if len(ds) != 1 or (next(iter(ds.values())).node.get("targs") or [""])[0] != "&str":
+        return False
+    D = next(iter(ds.values()))
+    if inner_error_only(sym, paths, D):
+        return False
+    oks = [p for p in paths if p.result is not None and p.result[0] == "ctor" and p.result[1] == S.OK]
+    return len(oks) == 1 and sym.lookup(oks[0], D.term) == S.OK and oks[0].result[2][0] == ("ctor", "webauthn::Icon", ()) and not any(p.done and p.done[0] == "panic" for p in paths) \
+        and all(len([e for e in p.effects]) == 1 for p in paths)
+
+
 def run(ctx):
     spec = json.load(open(os.path.join(VERIF, "spec", "ctap2_messages.json")))
     ctx.explanation = ("Wiring table from the generated decoders; path literals of the two wrapper functions; a semantic template for floor_char_boundary/truncate whose slots are "
@@ -267,86 +438,16 @@ def run(ctx):
         ia = F.adt("webauthn::Icon")
         ctx.oblige("C13|icon|stores-nothing", ia is not None and all(not v["fields"] for v in ia["variants"]), "Icon stores data", cfg=cfg)
         idf = F.impl_fn("serde_core::de::Deserialize", "webauthn::Icon", "deserialize")
-        good = False
-        if len(idf) == 1:
-            A = Analysis(idf[0])
-            good = len(A.tries) == 1 and H.strip_block(A.tries[0].node).get("callee") == DESER and (H.strip_block(A.tries[0].node).get("targs") or [""])[0] == "&str" \
-                and len(A.sites) == 1 and A.sites[0].wrappers == [OK]
+        good = len(idf) == 1 and check_icon(ctx, F, cfg, idf[0])
         ctx.oblige("C13|icon|decodes-text", good, "Icon::deserialize no longer decodes exactly one text string and succeeds", cfg=cfg)
         # ---- skip_if_too_long
         fn = F.fn(SKIP_W)
         if ctx.oblige("C13|skip|anchor", fn is not None, "anchor missing: " + SKIP_W, cfg=cfg):
-            A = Analysis(fn)
-            good_try = len(A.tries) == 1 and H.strip_block(A.tries[0].node).get("callee") == DESER and (H.strip_block(A.tries[0].node).get("targs") or [""])[0] == "&str" and not A.tries[0].conds
-            ctx.oblige("C13|skip|only-inner-error", good_try, "skip_if_too_long has error exits other than decoding the text itself", cfg=cfg, where=fn["sp"])
-            kept = dropped = None
-            others = []
-            prechecks = []
-            CONV = "<heapless::string::String<L> as core::convert::TryFrom<&str>>"
-            PUSH = "heapless::string::String::<N>::push_str"
-            fits_test = None   # the expression whose Ok/Err decides fit vs too long
-            for s_ in A.sites:
-                mc = [c for c in s_.conds if c.kind == "match"]
-                extra = [c for c in s_.conds if c.kind != "match"]
-                extra_ok = all((A.comparison(c) or ("", "", ""))[1] in ("<=", "<") and (A.comparison(c) or ("", "", ""))[2].endswith("::L") for c in extra)
-                sc = H.strip_block(A.subst(mc[0].scrut)) if len(mc) == 1 and extra_ok else {}
-                pc = H.pat_ctor(mc[0].pat) if mc else None
-                form = None
-                fresh_id = None
-                if sc and H.conversion_impl(sc) == CONV:
-                    form = "try_from"
-                elif sc.get("k") == "mcall" and sc.get("callee") == PUSH:
-                    # fresh String<L> filled by exactly one push_str of the decoded text
-                    fresh_id = H.local_id(sc["recv"])
-                    init = A.env.get(fresh_id)
-                    pushes = [x for x in H.walk(fn["body"]) if x.get("k") == "mcall" and H.local_id(x.get("recv", {})) == fresh_id]
-                    if init is not None and H.strip_block(init).get("callee") == "heapless::string::String::<N>::new" and (H.strip_block(init).get("targs") or [""]) == ["L"] and len(pushes) == 1:
-                        form = "push_str"
-                if form and pc == "core::result::Result::Ok" and s_.wrappers == [OK, SOME] and s_.node is not None and \
-                        ((form == "try_from" and H.local_id(s_.node) in [i for _, i in H.pat_bindings(mc[0].pat)]) or (form == "push_str" and H.local_id(s_.node) == fresh_id)):
-                    kept = s_
-                    fits_test = sc
-                elif form and (pc == "core::result::Result::Err" or H.pat_is_catchall(mc[0].pat)) and s_.wrappers == [OK] and H.ctor(H.strip_block(s_.node)) == "core::option::Option::None":
-                    dropped = s_
-                else:
-                    # an explicit length pre-check: accepted iff it drops exactly the texts that do not fit (len > L)
-                    t = A.comparison(s_.conds[0]) if len(s_.conds) == 1 else None
-                    LENS = ("core::str::<impl str>::len(try(serde_core::de::Deserialize::deserialize(param:deserializer)))",)
-                    if t and t[0] in LENS and s_.wrappers == [OK] and H.ctor(H.strip_block(s_.node)) == "core::option::Option::None" and t[2].endswith("::L"):
-                        if t[1] == ">":
-                            prechecks.append(s_)
-                            continue
-                        ctx.oblige("C13|skip|precheck-boundary", False,
-                                   "the length pre-check drops the icon when len %s L: an icon of exactly L bytes (which fits) is reported absent" % t[1], cfg=cfg, where=H.line(s_.node))
-                        continue
-                    others.append(s_)
-            # the conversion must be genuinely fallible: core's blanket `impl<T, U: Into<T>> TryFrom<U> for T` is infallible
-            # (Error = Infallible) and forwards to From::from, which for heapless 0.7 String *panics* when the text does not fit
-            convs = [x for x in H.walk(fn["body"]) if H.conversion_impl(x) == CONV]
-            blanket = [x for x in convs if x.get("resolved") == "<T as core::convert::TryFrom<U>>::try_from" or "core::convert::Infallible" in (x.get("ty") or "")]
-            ctx.oblige("C13|skip|fallible-conversion", not blanket,
-                       "`String::try_from(text)` resolves to core's infallible blanket TryFrom (error type Infallible) and therefore to heapless' panicking String::from(&str): "
-                       "an icon longer than the capacity panics instead of being dropped", cfg=cfg, where=H.line(blanket[0]) if blanket else fn["sp"])
-            ctx.oblige("C13|skip|keeps-when-fits", kept is not None, "an icon that fits is not returned verbatim as Some(<String<L> holding the decoded text>)", cfg=cfg, where=fn["sp"])
-            ctx.oblige("C13|skip|drops-when-too-long", dropped is not None, "an over-long icon is not reported absent with Ok(None)", cfg=cfg, where=fn["sp"])
-            ctx.oblige("C13|skip|no-other-result", not others, "skip_if_too_long has other results: %s" % [A.site_str(x) for x in others], cfg=cfg, where=fn["sp"])
-            # the text stored is the text decoded
-            if fits_test is not None:
-                args = H.call_args(fits_test)
-                arg = A.subst(args[-1])
-                ctx.oblige("C13|skip|same-text", arg.get("k") == "try" and bool(A.tries) and arg["e"] is A.tries[0].node, "the stored text is not the decoded text", cfg=cfg, nontrivial=False)
-            ctx.sample({"cfg": cfg, "skip_if_too_long": [A.site_str(s) for s in A.sites]}, limit=3)
+            check_skip(ctx, F, cfg, fn)
         # ---- truncate wrapper
         fn = F.fn(TRUNC_W)
         if ctx.oblige("C13|trunc-wrapper|anchor", fn is not None, "anchor missing: " + TRUNC_W, cfg=cfg):
-            A = Analysis(fn)
-            good = len(A.tries) == 1 and H.strip_block(A.tries[0].node).get("callee") == DESER and (H.strip_block(A.tries[0].node).get("targs") or [""])[0] == "core::option::Option<&str>" \
-                and len(A.sites) == 1 and A.sites[0].wrappers == [OK]
-            if good:
-                n = H.strip_block(A.sites[0].node)
-                good = n.get("k") == "mcall" and n.get("callee") == "core::option::Option::<T>::map" and H.def_path(n["args"][0]) == TRUNCATE \
-                    and A.subst(n["recv"]).get("k") == "try" and (n.get("targs") or ["", ""])[1] == "heapless::string::String<L>"
-            ctx.oblige("C13|trunc-wrapper", good, "the truncating decoder is no longer Ok(<decoded Option<&str>>.map(truncate::<L>))", cfg=cfg, where=fn["sp"])
+            check_trunc_wrapper(ctx, F, cfg, fn)
         # ---- truncate
         fn = F.fn(TRUNCATE)
         floor_fn = F.fn(FLOOR)
